@@ -13,6 +13,7 @@ mod print;
 mod probe;
 mod render;
 mod seqs;
+mod statics;
 mod stdlibx;
 mod total;
 mod types;
@@ -45,6 +46,7 @@ fn main() {
             "lang" => out(&lang::run(&args[2..])),
             "gen" => out(&progen::run(&args[2..])),
             "api" => out(&api::run(&args[2..])),
+            "statics" => statics::run(&args[2..]),
             "interp" => out(&interp::run_file(&args[2..])),
             "det" => {
                 lang::det(&args[2..]);
